@@ -28,8 +28,10 @@ func c11Run(sc c11Scenario, serial map[string]string, prefix []int, sigs []strin
 	vYieldHook = vsched.Yield
 	defer func() { vYieldHook = nil }()
 	fbFreshReadyConn()
+	// the instance is assembled outside the scheduler: the BESS plug-in's real SetUpfInfo talks gRPC in real time
+	vsched.S = nil
+	in = newVInst(c11Cfg(sc))
 	s.Run(func() {
-		in = newVInst(c11Cfg(sc))
 		if in.fb != nil {
 			in.bs.client = &schedBESSClient{in.fb}
 		}
